@@ -72,8 +72,10 @@ fn main() {
             }
             "t" => {
                 let mut cfg = TcpTransportConfig::default();
-                cfg.local_address_ipv4 = (f[1] == "1").then_some(Ipv4Addr::LOCALHOST);
-                cfg.local_address_ipv6 = (f[2] == "1").then_some(Ipv6Addr::LOCALHOST);
+                // "1" = a loopback local address, "2" = the wildcard (0.0.0.0 / ::): a configured local address of a
+                // family is a configured local address, whatever its value
+                cfg.local_address_ipv4 = match f[1] { "1" => Some(Ipv4Addr::LOCALHOST), "2" => Some(Ipv4Addr::UNSPECIFIED), _ => None };
+                cfg.local_address_ipv6 = match f[2] { "1" => Some(Ipv6Addr::LOCALHOST), "2" => Some(Ipv6Addr::UNSPECIFIED), _ => None };
                 cfg.happy_eyeballs_timeout = he.then_some(Duration::from_millis(300));
                 let t: TcpTransport<GaiResolver, TcpStream> = TcpTransport::builder()
                     .with_config(cfg)
